@@ -290,7 +290,9 @@ def run_case(case, name):
             # producers, listeners and statistics are built anew, as the documentation's examples do
             self.producer = EventProducer()
             self.listeners = [UserListener(self, l) for l in range(len(spec.get("lst", [])))]
+            rec["log"].append(["newproducer"])
             for et, l in spec.get("subs", []):
+                rec["log"].append(["sub", et, l])
                 self.producer.add_listener(UET[et], self.listeners[l])
             self.stat_objs = {}
             self.sid_kind = {}
@@ -370,11 +372,16 @@ def run_case(case, name):
                     rec["draws"].append([a[2], "float", v.hex()])
                     self.observe(a[1], v)
                 elif kind == "fire":
+                    ser = state["serial"]
                     state["serial"] += 1
-                    self.producer.fire(UET[a[1]], state["serial"])
+                    rec["log"].append(["fire", a[1], ser])
+                    self.producer.fire(UET[a[1]], ser)
+                    rec["log"].append(["fired", a[1], ser])
                 elif kind == "sub":
+                    rec["log"].append(["sub", a[1], a[2]])
                     self.producer.add_listener(UET[a[1]], self.listeners[a[2]])
                 elif kind == "unsub":
+                    rec["log"].append(["unsub", a[1], a[2]])
                     self.producer.remove_listener(UET[a[1]], self.listeners[a[2]])
                 else:
                     raise ValueError(kind)
